@@ -269,7 +269,18 @@ func H_C17_Register(shape int) {
 		}
 		return indexOf(log, n+"!")
 	}
-	for _, op := range ops {
+	for oi, op := range ops {
+		// a registration that was removed later makes no request any more (a later
+		// Replace or Register of the same name is a new registration of its own)
+		gone := false
+		for _, later := range ops[oi+1:] {
+			if later.kind == 4 && later.name == op.name {
+				gone = true
+			}
+		}
+		if gone {
+			continue
+		}
 		if op.kind == 5 {
 			me := pos(op.name)
 			if me < 0 {
